@@ -32,16 +32,18 @@ def _ordinary(name):
 def check_note(ctx, case):
     name, octave, sh, up = case
     size, deg = T.shorthand_size(sh), T.shorthand_degree(sh)
-    n = Note(name, octave)
+    n = _note_at(name, octave)
+    if n is None:
+        return ctx.note_case(False, ["note:negative-start-not-reached"])
     r = ctx.ok("transpose", n.transpose, sh, up)
     if failed(r):
         return
     # keyword form / default direction denote the same operation
-    nk = Note(name, octave)
+    nk = _note_at(name, octave)
     ctx.ok("transpose", lambda: nk.transpose(sh, up=up))
     ctx.check((nk.name, nk.octave) == (n.name, n.octave), "note/keyword-form", lambda: "%r: up=%r gives %s-%d, positional %s-%d" % (case, up, nk.name, nk.octave, n.name, n.octave))
     if up:
-        nd = Note(name, octave)
+        nd = _note_at(name, octave)
         ctx.ok("transpose", nd.transpose, sh)
         ctx.check((nd.name, nd.octave) == (n.name, n.octave), "note/default-direction", repr(case))
     p0 = T.pitch(name, octave)
@@ -54,14 +56,14 @@ def check_note(ctx, case):
     ctx.check(int(n) == exp_p, "note/int", lambda: "%r: int %r" % (case, int(n)))
     crossing = n.octave != octave
     # there and back again
-    if up or n.octave >= 0:
+    if up or n.octave >= 0 or octave < 0:
         back = ctx.ok("transpose", n.transpose, sh, not up)
         if not failed(back):
             ctx.check(n.name == name and n.octave == octave, "note/round-trip",
                       lambda: "%r: back at %s-%d" % (case, n.name, n.octave))
     # the octave moved in between: up, one octave higher, down again - back on the name, one octave above the start
-    if up:
-        m = Note(name, octave)
+    if up and octave >= 0:
+        m = _note_at(name, octave)
         ctx.ok("transpose", m.transpose, sh, True)
         ctx.ok("octave_up", m.octave_up)
         ctx.ok("transpose", m.transpose, sh, False)
@@ -267,6 +269,10 @@ def sub_notes(ctx, shard, n):
     if shard == 0:
         ctx.exhaustive("Note.transpose: names x octaves x shorthands x direction", "35 x 0..9 (down 1..9) x 31 x 2", len(cases))
     ctx.enumerate("note", check_note, cases[shard::n])
+    # start notes below octave 0 (reached by transposing down from octave 0), and down from octave 0: the arithmetic stays exact
+    low = [[nm, o, sh, up] for nm in T.unmixed_names(1) for o in (-1, -2, -3) for sh in SHS for up in (True, False)] + \
+          [[nm, 0, sh, False] for nm in T.unmixed_names(1) for sh in SHS]
+    ctx.enumerate("note", check_note, low[shard::n])
     if shard == 0:
         oc = [[nm, o, d] for nm in T.unmixed_names(2) + ["A###", "B###", "Cbbb"] for o in range(-4, 10) for d in range(-15, 16)]
         ctx.exhaustive("change_octave", "38 names x octaves -4..9 (negative ones reached by transposing down) x diffs -15..15", len(oc))
